@@ -11,9 +11,13 @@ c) type_allows_value has an explicit arm for every FieldType variant (no wildcar
 d) SchemaRegistry::define and define_async: the AlreadyDefined/EmptySchema returns guard both store.append and register_record; register_record only after append succeeded;
    the define handler answers OK only on the Ok edge; the handler holds the registry's write lock across every call that can reach SchemaStore::append, so the already-defined check and the
    durable append cannot be separated by a concurrent DEFINE (d3).
+e) what DEFINE persists, the next start can read back: the schema store's writer refuses a record the reader would refuse - the length limit the reader compares against (a `> CONST` test in
+   read_single_record) is also tested in write_record, on the same constant, before the first write.
+f) a conforming payload reaches validation: the rule that cuts the JSON payload out of a STORE command skips JSON string literals (the generated __parse_balanced_braces reaches __parse_json_string),
+   so braces inside string values do not unbalance it.
 """
-FLOOR = 6
-REQUIRED = ["C06.a", "C06.b", "C06.c", "C06.d1", "C06.d2", "C06.d3"]
+FLOOR = 8
+REQUIRED = ["C06.a", "C06.b", "C06.c", "C06.d1", "C06.d2", "C06.d3", "C06.e", "C06.f"]
 
 
 def run(ctx):
@@ -239,3 +243,56 @@ def run(ctx):
                 out.append(("define-lock:" + k_, "define handler: %s (between the already-defined check and the durable append)" % d_, w_))
         return out
     ctx.run("C06.d3", "K5 HELD (interprocedural)", "handlers::define::handle", "check-then-append of a schema is atomic with respect to other DEFINEs", d3)
+
+    def e_(inst):
+        rd = F.fn("schema::store::reader::read_single_record")
+        wr = F.fn("schema::store::writer::write_record")
+
+        def limit_consts(b_):
+            out = {}
+            for i in sorted(b_.live_blocks()):
+                for st in b_.blocks[i]["s"]:
+                    v = st.get("v")
+                    if v and v.get("r") == "bin" and v.get("op") in ("Gt", "Ge", "Lt", "Le"):
+                        for o_ in (v["a"], v["b"]):
+                            for l in b_.origins(o_):
+                                if l[0] == "constitem":
+                                    out.setdefault(l[1], []).append(i)
+            return out
+        rc, wc = limit_consts(rd), limit_consts(wr)
+        inst.sites = ["reader limits: %s" % sorted(rc), "writer limits: %s" % sorted(wc)]
+        if not rc:
+            raise AnchorMissing("a length limit (comparison with a constant item) in read_single_record")
+        bad = []
+        writes = wr.find_calls(r"Write::write_all$")
+        if not writes:
+            raise AnchorMissing("write_all in write_record")
+        for c_name in rc:
+            if c_name not in wc:
+                bad.append(("writer-ignores-reader-limit:%s" % c_name.split("::")[-1], "write_record does not test %s, the limit at which the reader stops reading the file: a larger DEFINE is acknowledged and, after a restart, it and every later schema are gone" % c_name.split("::")[-1], None))
+                continue
+            # the test comes before the first write
+            first = min(writes, key=lambda c_: c_.bb)
+            if not any(wr.can_reach(i, first.bb) and not wr.can_reach(first.bb, i) for i in wc[c_name]):
+                bad.append(("limit-after-write:%s" % c_name.split("::")[-1], "write_record tests %s only after it has started writing the record" % c_name.split("::")[-1], None))
+        return bad
+    ctx.run("C06.e", "K11 SIB", "schema store: write_record vs read_single_record", "the writer refuses what the reader would not read back", e_)
+
+    def f_(inst):
+        pre = "command::parser::commands::store::sneldb_store::"
+        if not F.has(pre + "__parse_balanced_braces"):
+            raise AnchorMissing(pre + "__parse_balanced_braces")
+        b = F.fn_exact(pre + "__parse_balanced_braces")
+        callees = sorted({c_.nname[len(pre):] for c_ in b.calls if not c_.cleanup and c_.nname.startswith(pre)})
+        inst.sites = ["balanced_braces -> %s" % callees]
+        strs = [x for x in callees if re.search(r"string|str_lit|quoted", x)]
+        if not strs:
+            return [("braces-in-strings-counted", "the brace-matching rule of the STORE grammar does not skip JSON string literals: a payload whose string value contains '{' or '}' is refused although it conforms to the schema", None)]
+        # the string rule honours escapes: it matches a backslash literal
+        sb = F.fn_exact(pre + strs[0])
+        lits = {l[1].strip('"') for c_ in sb.find_calls(r"parse_string_literal$") for l in sb.origins(c_.args[2]) if l[0] == "const"}
+        inst.sites.append("%s literals: %s" % (strs[0], sorted(lits)))
+        if not any("\\" in x for x in lits):
+            return [("string-escapes-ignored", "the string rule used by balanced_braces does not handle backslash escapes: \\\" inside a value ends the string early", None)]
+        return []
+    ctx.run("C06.f", "K4 REACH", "STORE grammar: balanced_braces", "braces inside JSON string values do not count", f_)
